@@ -688,3 +688,36 @@ def explore_c18_nd(rng, tier, res, deep=False):
     except jp.JSONPathRecursionError:
         res.violations.append({"property": "C18", "query": "$..*", "document": "2000-deep list", "observed": "JSONPathRecursionError",
                                "expected": "full result (limit 5000)", "what": "deep-but-legal data under a raised limit"})
+    # the same beyond the one witness: both modes, object chains, the segment inside a filter, nesting just within and just
+    # beyond the raised limit (the outcome is the configured bound's, never the interpreter's)
+    def chain(n, kind):
+        v = 0
+        for _ in range(n):
+            v = [v] if kind == "arr" else {"a": v}
+        return v
+
+    for nd in (False, True):
+        env5k = type("B5", (jp.JSONPathEnvironment,), {"max_recursion_depth": 5000, "nondeterministic": nd})()
+        for kind, q, wrap in (("arr", "$..*", False), ("obj", "$..a", False), ("arr", "$[?@..*]", True), ("obj", "$[?count(@..a) > 0]", True)):
+            for depth, want in ((1500, "ok"), (4999, "ok"), (5001, "rec")):
+                doc = chain(depth, kind)
+                if wrap:
+                    doc = [doc]
+                res.evaluations += 1
+                try:
+                    env5k.find(q, doc)
+                    got = "ok"
+                except jp.JSONPathRecursionError:
+                    got = "rec"
+                except RecursionError:
+                    got = "PY:RecursionError"
+                except Exception as exc:  # noqa: BLE001
+                    got = "PY:" + type(exc).__name__
+                if got != want:
+                    if got == "PY:RecursionError" and want == "ok":
+                        res.known.append(("D26", f"max_recursion_depth = 5000, {kind} chain nested {depth} deep, {q}, nondeterministic={nd}: interpreter RecursionError"))
+                    else:
+                        res.violations.append({"property": "C18", "query": q, "document": f"{kind} chain nested {depth} deep" + (" inside an array" if wrap else ""),
+                                               "env": {"max_recursion_depth": 5000, "nondeterministic": nd}, "observed": got,
+                                               "expected": "full result" if want == "ok" else "JSONPathRecursionError", "what": "deep data under a raised limit"})
+                    break
